@@ -2,10 +2,10 @@ package props
 
 import (
 	"encoding/json"
-	"regexp"
 	"fmt"
 	"math/rand"
 	"os"
+	"regexp"
 	"sort"
 	"strings"
 
